@@ -116,6 +116,21 @@ def sc_packages(name, expr, packages):
                       describe=f"expand_packages('{expr}') with {packages}")
 
 
+def sc_gather_if_necessary(name):
+    """the utility that mixes plain values and awaitables (used for the parts of an AHB expression), driven directly"""
+    from ahbicht.utility_functions import gather_if_necessary
+    ev = GT.make_evaluators()
+
+    async def item(tag):
+        await GT.G.gate(f"rc:{tag}")
+        return f"value-of-{tag}"
+
+    plan = PL.par(PL.seq(PL.await_(["rc:31"])), PL.seq(PL.await_(["rc:32"])), PL.seq(PL.await_(["rc:33"])))
+    return A.Scenario(name, plan, lambda: gather_if_necessary(["plain-0", item(31), "plain-2", item(32), item(33), "plain-5"]), ev, project=list,
+                      expected=["plain-0", "value-of-31", "plain-2", "value-of-32", "value-of-33", "plain-5"],
+                      describe="gather_if_necessary on a list mixing three plain values and three awaitables")
+
+
 def sc_validity(name, expr):
     """is_valid_expression: one evaluation per generated content evaluation result, each with its own context-local data"""
     import ahb
@@ -159,6 +174,7 @@ def scenarios(thorough):
         sc_requirement("rc10", "([1] U [2]) O ([3] U [4]) O ([5] U [6]) O ([7] U [8]) O ([9] U [10])",
                        {1: "F", 2: "F", 3: "U", 4: "F", 5: "F", 6: "U", 7: "K", 8: "U", 9: "U", 10: "U"}),
         sc_ahb("ahbpk", "Muss [1P] U [4] Soll [2P][902]", {1: "U", 2: "F", 4: "F"}, text="z2", packages={"1P": "[1]", "2P": "[2] U [501]"}),
+        sc_gather_if_necessary("gin"),
         sc_validity("valid1h", "Kann [1] U [501]"),
         sc_validity("validfc", "Muss [1][901]"),
     ]
@@ -181,7 +197,7 @@ def run():
     import ahb
     ahb.configure()
     for i, sc in enumerate(scenarios(thorough)):
-        A.check_scenario(sc, res, work, rng, max_all=(3000 if thorough else 300), extra_random=(300 if thorough else 25), sensitivity=({4: [("completion_order", "copy", "Assoc")], 13: [("positional", "shared", "OwnContext")]}.get(i)))
+        A.check_scenario(sc, res, work, rng, max_all=(3000 if thorough else 300), extra_random=(300 if thorough else 25), sensitivity=({4: [("completion_order", "copy", "Assoc")], 14: [("positional", "shared", "OwnContext")]}.get(i)))
     bad = [s for s in res.coverage.get("sensitivity", []) if s["violated"] != s["expected_to_violate"]]
     if bad:
         from common import MachineryError
